@@ -41,6 +41,17 @@ class LocalStyleFilter(dsw.DefaultBioFilter):
         return dna_sequence in self.accepted
 
 
+class NumpyFilter(dsw.DefaultBioFilter):
+    """A user-defined filter that computes its verdict with numpy: valid() hands back numpy.bool_, not the Python singletons."""
+
+    def __init__(self, accepted):
+        super().__init__(screen_name="user-defined")
+        self.accepted = numpy.array(sorted(accepted) or ["-"])
+
+    def valid(self, dna_string):
+        return (self.accepted == dna_string).any()
+
+
 def kmers_of(indices, k):
     return set("".join(impl.NT[(v // 4 ** (k - 1 - i)) % 4] for i in range(k)) for v in indices)   # transport of TLC's set
 
@@ -71,7 +82,8 @@ def _replay_one(rec):
     k, marked = rec["k"], rec["marked"]
     bad = []
     if rec["src"] == "pred":
-        filters = [("documented-interface", DocumentedFilter(kmers_of(marked, k))), ("local-style", LocalStyleFilter(kmers_of(marked, k)))]
+        filters = [("documented-interface", DocumentedFilter(kmers_of(marked, k))), ("local-style", LocalStyleFilter(kmers_of(marked, k))),
+                   ("numpy-verdicts", NumpyFilter(kmers_of(marked, k)))]
     else:
         c = rec["cfg"]
         if not c12.float_guard(c["k"], c["gc"]):
